@@ -13,7 +13,8 @@
 
 struct SplitMix {
   uint64_t s;
-  explicit SplitMix(uint64_t seed) : s(seed * 0x9E3779B97F4A7C15ULL + 0x1234567ULL) {}
+  // the state is a HASH of the seed: with s = seed * golden + c, seed+1 would replay seed's stream shifted by one draw
+  explicit SplitMix(uint64_t seed) : s(seed * 0x9E3779B97F4A7C15ULL + 0x1234567ULL) { uint64_t h = next(); s = h ^ (seed * 0xD6E8FEB86659FD93ULL); }
   uint64_t next() {
     uint64_t z = (s += 0x9E3779B97F4A7C15ULL);
     z = (z ^ (z >> 30)) * 0xBF58476D1CE4E5B9ULL;
